@@ -107,7 +107,7 @@ func init() {
 				}
 				bld := exec.Command("go", "build", "./...")
 				bld.Dir = dst
-				bld.Env = append(env, "GOCACHE="+filepath.Join(tmp, "gocache"))
+				bld.Env = env
 				if out, err := bld.CombinedOutput(); err != nil {
 					results[i] = result{vc.ID, "skipped: variant does not build (" + firstLine(string(out)) + ")", false}
 					return
